@@ -54,10 +54,10 @@ func (s *Sys) openOn(db corestore.KVStoreWithBatch, fast bool) (*iavl.MutableTre
 // treeDump is everything a user can observe of a freshly opened tree.
 type treeDump struct {
 	avail   []int
-	walk    map[int]string // per version: hash + tree-walk contents
-	served  map[int]string // per version: contents through Iterator / Get (index-served where enabled)
-	working string         // working tree through the tree walk
-	wserved string         // working tree through Iterator
+	walk    map[int]string    // per version: hash + tree-walk contents
+	served  map[int]string    // per version: contents through Iterator / Get (index-served where enabled)
+	working string            // working tree through the tree walk
+	wserved string            // working tree through Iterator
 	wgets   map[string]string // working tree Get per key of any listed version
 	vkeys   map[int][]string  // keys of each listed version
 }
